@@ -227,7 +227,7 @@ theorem lookup_setLevel_self {m : List (Level × LevelMap)} {l : Level} (v : Lev
       simp only [List.map_cons, hkk2, Bool.false_eq_true, if_false, List.lookup, hkk']
       exact ih hl
 
-theorem mem_setLevel {m : List (Level × LevelMap)} {l k : Level} {v x : LevelMap}
+theorem mem_setLevel_drop {m : List (Level × LevelMap)} {l k : Level} {v x : LevelMap}
     (h : (k, x) ∈ setLevel m l v) :
     (k ≠ l ∧ (k, x) ∈ m) ∨ (k = l ∧ x = v ∧ ∃ old, (k, old) ∈ m) := by
   rw [setLevel_eq, List.mem_map] at h
@@ -648,7 +648,7 @@ theorem drop_dictOK (d : DictOK t) (hn : t.hierarchy.Nodup) (hi : i < t.hierarch
     unfold dropLevels at hm
     split at hm
     · exact d.nodeKeys l m (List.mem_filter.1 hm).1
-    · rcases mem_setLevel hm with ⟨_, h⟩ | ⟨_, rfl, _⟩
+    · rcases mem_setLevel_drop hm with ⟨_, h⟩ | ⟨_, rfl, _⟩
       · exact d.nodeKeys l m (List.mem_filter.1 h).1
       · rw [reparent_eq, List.map_map]
         exact d.nodesAt_nodup _
